@@ -12,6 +12,8 @@ import (
 	"github.com/hashicorp/hcl/v2/hclsimple"
 	"github.com/hashicorp/hcl/v2/hclsyntax"
 	"github.com/hashicorp/hcl/v2/hclwrite"
+	hcljson "github.com/hashicorp/hcl/v2/json"
+	"github.com/zclconf/go-cty/cty"
 	"golang.org/x/text/unicode/norm"
 
 	"verif/harness/core"
@@ -267,6 +269,42 @@ func describe(r *Root) string {
 
 // HandleArbitrary decodes arbitrary (well- and ill-formed) bodies of the decoder generator into the
 // struct family: problems must be diagnostics, never panics.
+// decode-only family: the tag kinds and field types EncodeIntoBody does not write
+// (remain, body, ranges, cty.Value / hcl.Expression / *hcl.Attribute fields, block fields of
+// type hcl.Body and *hcl.Block-free forms, numeric conversions)
+type LooseItem struct {
+	Key      string    `hcl:"key,label"`
+	KeyRange hcl.Range `hcl:"key,label_range"`
+	Def      hcl.Range `hcl:",def_range"`
+	Type     hcl.Range `hcl:",type_range"`
+	Rest     hcl.Body  `hcl:",remain"`
+}
+
+type Loose struct {
+	Name      cty.Value      `hcl:"name,optional"`
+	NameRange hcl.Range      `hcl:"name,attr_range"`
+	NameName  hcl.Range      `hcl:"name,attr_name_range"`
+	NameValue hcl.Range      `hcl:"name,attr_value_range"`
+	Count     hcl.Expression `hcl:"count,optional"`
+	Inner     []Inner        `hcl:"inner,block"`
+	Items     []LooseItem    `hcl:"item,block"`
+	Rest      hcl.Attributes `hcl:",remain"`
+}
+
+type LooseAttr struct {
+	Name  *hcl.Attribute    `hcl:"name"`
+	Count float64           `hcl:"count,optional"`
+	Whole hcl.Body          `hcl:",body"`
+	Rest  map[string]string `hcl:",remain"`
+}
+
+type Tiny struct {
+	Count uint8    `hcl:"count"`
+	Name  []int    `hcl:"name,optional"`
+	Inner *Inner   `hcl:"inner,block"`
+	Item  []*Inner `hcl:"item,block"`
+}
+
 func HandleArbitrary(c *core.Check, st core.State) {
 	if tla.Str(st.Vars["phase"]) != "body" {
 		return
@@ -285,9 +323,18 @@ func HandleArbitrary(c *core.Check, st core.State) {
 			}
 			body = f.Body
 		} else {
-			continue
+			js := dec.JSON(items, 0)
+			js = strings.NewReplacer(`"p":`, `"inner":`, `"q":`, `"item":`, `"a":`, `"name":`, `"b":`, `"count":`).Replace(js)
+			f, d := hcljson.Parse([]byte(js), "a.json")
+			if d.HasErrors() {
+				continue
+			}
+			body = f.Body
+			src = js
 		}
-		for _, target := range []any{&Root{}, &Item{}, &Inner{}, &Leaf{}} {
+		for _, mk := range []func() any{func() any { return &Root{} }, func() any { return &Item{} }, func() any { return &Inner{} }, func() any { return &Leaf{} },
+			func() any { return &Loose{} }, func() any { return &LooseAttr{} }, func() any { return &Tiny{} }, func() any { return &LooseItem{} }} {
+			target := mk()
 			c.Count("evaluations", 1)
 			if rec, p := core.Guard(func() { _ = gohcl.DecodeBody(body, nil, target) }); p {
 				c.Violation(fmt.Sprintf("panic/decode-arbitrary/%T", target), fmt.Sprintf("DecodeBody of %q into %T panicked: %v", src, target, rec), map[string]any{"state": st.Raw, "source": src})
